@@ -7,6 +7,7 @@ import (
 	"math/big"
 	"sort"
 	"strings"
+	"sync"
 	"testing"
 	"testing/synctest"
 	"time"
@@ -19,6 +20,7 @@ import (
 )
 
 type c08Host struct {
+	calls   int    // whitelist calls seen (for the "late once" behaviour)
 	Idx     int    `json:"idx"`
 	Name    string `json:"name"`
 	Kind    string `json:"kind"`
@@ -37,7 +39,7 @@ func c08Case(rt *rapid.T, rec *vt.Rec) {
 	cfg.MaxRequestHosts = rapid.SampledFrom([]int{0, 0, 1, 2, 5}).Draw(rt, "maxHosts")
 	nHosts := rapid.IntRange(0, 6).Draw(rt, "nHosts")
 	nClients := rapid.IntRange(1, 3).Draw(rt, "nClients")
-	s := newSession(rt, cfg, nHosts+nClients)
+	s := newSession(rt, cfg, nHosts+nClients+1) // (+1: a late-coming client for the second request)
 	defer s.close()
 	var hosts []*c08Host
 	healthy := rapid.Bool().Draw(rt, "healthyPopulation")
@@ -46,7 +48,7 @@ func c08Case(rt *rapid.T, rec *vt.Rec) {
 		h.Kind = rapid.SampledFrom([]string{"geth", "geth", "parity", ""}).Draw(rt, "kind")
 		h.age = rapid.SampledFrom(c08Ages).Draw(rt, "age")
 		h.Conn = rapid.SampledFrom([]string{"live", "live", "live", "closed", "rereg-closeold", "rereg-keepold"}).Draw(rt, "conn")
-		h.Behave = rapid.SampledFrom([]string{"ack", "ack", "ack", "slowack", "lateack", "error", "noresult", "never"}).Draw(rt, "behave")
+		h.Behave = rapid.SampledFrom([]string{"ack", "ack", "ack", "slowack", "lateack", "lateonce", "error", "noresult", "never"}).Draw(rt, "behave")
 		if healthy && rapid.IntRange(0, 5).Draw(rt, "perturbed") > 0 {
 			// mostly healthy populations: the count rules only show when enough hosts cooperate
 			h.Kind = "geth"
@@ -58,13 +60,14 @@ func c08Case(rt *rapid.T, rec *vt.Rec) {
 		switch h.Behave {
 		case "slowack":
 			h.delay = time.Duration(rapid.Int64Range(1, int64(5*time.Second)-1).Draw(rt, "delay"))
-		case "lateack":
+		case "lateack", "lateonce":
 			h.delay = time.Duration(rapid.Int64Range(int64(5*time.Second)+1, int64(10*time.Second)).Draw(rt, "delay"))
 		case "never":
 			h.delay = time.Hour
 		}
 		hosts = append(hosts, h)
 	}
+	var behaveMu sync.Mutex
 	s.behave = func(hostIdx, connID int, method, arg string) (time.Duration, error) {
 		if hostIdx >= nHosts || method != "whitelist" {
 			return 0, nil
@@ -75,6 +78,15 @@ func c08Case(rt *rapid.T, rec *vt.Rec) {
 			return 0, errScripted
 		case "noresult":
 			return 0, errNoResult
+		case "lateonce":
+			// too late for the first request that reaches it, prompt ever after
+			behaveMu.Lock()
+			h.calls++
+			first := h.calls == 1
+			behaveMu.Unlock()
+			if !first {
+				return 0, nil
+			}
 		}
 		return h.delay, nil
 	}
@@ -87,11 +99,20 @@ func c08Case(rt *rapid.T, rec *vt.Rec) {
 		for _, h := range hosts {
 			hs = append(hs, fmt.Sprintf("%s kind=%q age=%s conn=%s whitelist=%s(%s) alreadyPeer=%v", h.Name, h.Kind, h.Age, h.Conn, h.Behave, h.delay, h.Tracked))
 		}
+		fmt.Printf("C08 FAILURE DETAIL: %.1500s\n  history: %.3000s\n", fmt.Sprintf(f, a...), strings.Join(hist, "\n  "))
 		rt.Fatalf("%s\nconfig: %s\nhosts:\n  %s\nhistory:\n  %s", fmt.Sprintf(f, a...), cfg, strings.Join(hs, "\n  "), strings.Join(hist, "\n  "))
 	}
 	// clients register first
 	for c := nHosts; c < nHosts+nClients; c++ {
 		ac := s.openConn(c, "")
+		if rapid.IntRange(0, 4).Draw(rt, "clientWasHost") == 0 {
+			// this node used to run as a full-node host and now comes back as a light client: its latest role counts
+			s.model.connect(s.agents[c].id.nodeID, ac.id, true, "geth", "")
+			if err := s.connect(c, ac, true, "geth", ""); err != nil {
+				fail("connect: %v", err)
+			}
+			logf("client %s first registers as a host (old role)", s.agents[c].id.name)
+		}
 		s.model.connect(s.agents[c].id.nodeID, ac.id, false, "geth", "")
 		if err := s.connect(c, ac, false, "geth", ""); err != nil {
 			fail("client connect: %v", err)
@@ -111,6 +132,14 @@ func c08Case(rt *rapid.T, rec *vt.Rec) {
 			time.Sleep(d)
 		}
 		ac := s.openConn(h.Idx, "")
+		if rapid.IntRange(0, 4).Draw(rt, "hostWasClient") == 0 {
+			// this node used to run as a light client and now registers as a host: its latest role counts
+			s.model.connect(s.agents[h.Idx].id.nodeID, ac.id, false, h.Kind, "")
+			if err := s.connect(h.Idx, ac, false, h.Kind, ""); err != nil {
+				fail("connect: %v", err)
+			}
+			logf("host %s first registers as a light client (old role)", h.Name)
+		}
 		s.model.connect(s.agents[h.Idx].id.nodeID, ac.id, true, h.Kind, "")
 		if err := s.connect(h.Idx, ac, true, h.Kind, ""); err != nil {
 			fail("host connect: %v", err)
@@ -333,6 +362,74 @@ func c08Case(rt *rapid.T, rec *vt.Rec) {
 			fail("every active host of kind %q is eligible and acknowledges, so the reply must hold min(requested %d, supply %d) = %d hosts; got %d (err=%v)", kind, nEff, active, want, len(got), err)
 		}
 	}
+	// a second request, later, by a client that has just arrived: a host that was too slow (or whose caller gave up)
+	// ONCE is still a connected host - being left out of one reply is all that may happen to it
+	secondDone := false
+	if rapid.IntRange(0, 2).Draw(rt, "secondRequest") == 0 {
+		time.Sleep(12 * time.Second)
+		elapsed := time.Since(t0)
+		lateIdx := nHosts + nClients
+		lac := s.openConn(lateIdx, "")
+		s.model.connect(s.agents[lateIdx].id.nodeID, lac.id, false, "geth", "")
+		if err := s.connect(lateIdx, lac, false, "geth", ""); err != nil {
+			fail("late client connect: %v", err)
+		}
+		num2 := nHosts + 2
+		nEff2 := num2
+		if cfg.MaxRequestHosts > 0 && nEff2 > cfg.MaxRequestHosts {
+			nEff2 = cfg.MaxRequestHosts
+		}
+		active2, ok2 := 0, map[string]bool{}
+		allGood := true
+		for _, h := range hosts {
+			if h.age+elapsed >= 120*time.Second {
+				continue
+			}
+			active2++
+			id := s.agents[h.Idx].id.nodeID
+			_, live := s.model.liveHost(id)
+			acks := h.Behave == "ack" || h.Behave == "slowack" || h.Behave == "lateonce"
+			if h.Behave == "lateonce" {
+				behaveMu.Lock()
+				acks = h.calls >= 1 // its one slow answer is behind it
+				behaveMu.Unlock()
+			}
+			if live && acks {
+				ok2[id] = true
+			} else {
+				allGood = false
+			}
+		}
+		resp2, err2 := s.peer(lateIdx, num2, "")
+		var got2 []string
+		if resp2 != nil {
+			for _, n := range resp2.Peers {
+				got2 = append(got2, string(n.ID))
+			}
+		}
+		logf("late client %s requests num=%d -> %v err=%v (hosts that can be provided now: %v)", s.agents[lateIdx].id.name, num2, names(got2), err2, names(sortedKeys(ok2)))
+		for _, id := range got2 {
+			if !ok2[id] {
+				fail("second request returned %s, which is not an active, connected, acknowledging host", nodeName(id))
+			}
+		}
+		// (only when the request is large enough for the pool to try every active host: with a small configured
+		// maximum it samples a few candidates and may legitimately hit only failing ones)
+		if nEff2 >= active2 && len(ok2) > 0 && len(got2) == 0 {
+			fail("second request (12 s later, by a client that has just arrived) returned no host (err=%v) although %v are active, connected and acknowledge at once - a host that was slow once, or whose caller gave up once, must not be forgotten", err2, names(sortedKeys(ok2)))
+		}
+		if allGood {
+			want2 := nEff2
+			if active2 < want2 {
+				want2 = active2
+			}
+			if len(got2) != want2 {
+				fail("second request: every active host is connected and acknowledges, so the reply must hold min(%d, %d) hosts; got %d (err=%v)", nEff2, active2, len(got2), err2)
+			}
+		}
+		secondDone = true
+		s.closeConn(lac)
+	}
 	// let late/never-answering handlers finish inside the bubble, then look for wedged goroutines
 	s.close()
 	time.Sleep(2 * time.Hour)
@@ -341,7 +438,7 @@ func c08Case(rt *rapid.T, rec *vt.Rec) {
 		fail("goroutines are still blocked after every connection and the store were closed:\n%s", strings.Join(left, "\n\n"))
 	}
 	nontrivial := (active > 0 && len(acks) < active) || (nEff != active && active > 0)
-	cl := []string{"driver:" + cfg.Driver, fmt.Sprintf("legacy:%v", legacy), fmt.Sprintf("returned:%d", min(len(got), 3)), fmt.Sprintf("err:%v", err != nil), fmt.Sprintf("n_eff<=0:%v", nEff <= 0)}
+	cl := []string{"driver:" + cfg.Driver, fmt.Sprintf("legacy:%v", legacy), fmt.Sprintf("returned:%d", min(len(got), 3)), fmt.Sprintf("err:%v", err != nil), fmt.Sprintf("n_eff<=0:%v", nEff <= 0), fmt.Sprintf("second-request:%v", secondDone)}
 	for _, h := range hosts {
 		cl = append(cl, "whitelist:"+h.Behave, "conn:"+h.Conn)
 	}
